@@ -90,7 +90,7 @@ Proof. exact decA_wf_all. Qed.
 Theorem C06_denotes : forall f E t c r k st v st',
   wf_env E = true -> wf_env_rt E = true -> wf_ty E t = true ->
   defaults_wf E -> nosteps E ->
-  bytes_ok (c ++ r) -> strs_ok st -> nlen (c ++ r) + nlen st < 2 ^ 31 ->
+  bytes_ok (c ++ r) -> strs_ok st -> nlen (c ++ r) + nlen st + 64 < 2 ^ 31 ->
   dec a_ops f E t (mkA (c ++ r) k st) = Ok (v, mkA r k st') ->
   exists g b st2,
     enc g E t v st = Ok (b, st2) /\
